@@ -199,6 +199,17 @@ def r2(ctx, R):
         if not ok:
             R.bad(fi, fi.node, "old value's id is read after the reference was replaced", stmt="prev id")
     cr = ctx.func("ReferenceManager.change_ref")
+    R.inst("change_ref: the new binding is registered before the old one is released (x = x keeps its spec)")
+    sd_ = q.calls(cr, name="setdefault", recv_endswith="_valid_to_refs")
+    rm_ = q.calls(cr, name="remove", recv="refs")
+    def _reg_first():
+        cfg = cr.cfg
+        ts = [n_.id for n_ in cfg.nodes if n_.kind == "test" and norm(n_.ast) == "isinstance(value, Interface)"]
+        r_ = cfg.reach([cfg.entry], avoid=set(q.nodes_for(cr, sd_)), avoid_edges={(t, "T") for t in ts})
+        return not any(i in r_ for i in q.nodes_for(cr, rm_[0]))
+    if sd_ and rm_ and not _reg_first():
+        R.bad(cr, rm_[0], "re-assigning the same value empties its reference list before the new reference is registered: "
+                          "the spec is deleted although the reference still holds the value")
     R.inst("change_ref: new binding recorded under id(value) unless Interface")
     sd = q.calls(cr, name="setdefault", recv_endswith="_valid_to_refs")
     if not sd or norm(sd[0].args[0]) != "id(value)" or ("isinstance(value, Interface)", "F") not in q.guards_of(cr, sd[0]):
@@ -206,12 +217,17 @@ def r2(ctx, R):
     uv = ctx.func("ReferenceManager.update_value")
     R.inst("update_value: every reference of the old value is re-bound and re-registered under id(new_value)")
     ws = [st for st, t in q.subscript_writes(uv, "_valid_to_refs") if isinstance(st, ast.Assign)]
+    ext = [c for c in q.calls(uv, name="extend") if isinstance(c.func.value, ast.Call) and call_name(c.func.value) == "setdefault"
+           and (call_recv(c.func.value) or "").endswith("_valid_to_refs") and norm(c.func.value.args[0]) == "id(new_value)"]
     pp = q.calls(uv, name="pop", recv_endswith="_valid_to_refs")
-    if not ws or norm(ws[0].targets[0].slice) != "id(new_value)" or not pp or norm(pp[0].args[0]) != "prev_id" \
+    if ws:
+        R.bad(uv, ws[0], "the entry of the new value is overwritten: references already bound to it drop out of the registry "
+                         "and its spec is released too early")
+    if not ext or [norm(a) for a in ext[0].args] != ["newrefs"] or not pp or norm(pp[0].args[0]) != "prev_id" \
             or not q.calls(uv, name="_impl_change_ref"):
         R.bad(uv, uv.node, "update_value does not move the references to the new value", stmt="update_value")
-    elif not q.dominated(uv, pp, ws[0]):
-        R.bad(uv, ws[0], "new entry is written before the old one is popped (same id would be lost)")
+    elif not q.dominated(uv, pp, ext[0]):
+        R.bad(uv, ext[0], "new entry is written before the old one is popped (same id would be lost)")
     R.inst("update_value: unknown value is refused before anything changes")
     rs = q.raises(uv, "ValueError")
     us = q.calls(uv, name="update_spec_value")
